@@ -609,6 +609,11 @@ func main() {
 	emitLits("lit_rel", "Relation.Polygon", rl)
 	fmt.Fprintf(&b, "(* tag.go: keys of UninterestingTags mapped to true, source order (%s) *)\n", w.varPos["UninterestingTags"])
 	fmt.Fprintf(&b, "Definition uninteresting_tags : list string := %s.\n", coqStrings(unint))
+	dump, err := emitRuntimeDump(repo, out)
+	if err != nil {
+		fail("%v", err)
+	}
+	b.Write(dump)
 	if err := tr.Emit(filepath.Join(out, "GenPolygon.v"), b.Bytes()); err != nil {
 		fail("%v", err)
 	}
